@@ -286,11 +286,14 @@ impl FromStr for UserAgent {
                         .all(|c| c.is_ascii_graphic() && !reserved.contains(&c));
                     let version = version
                         .chars()
-                        .all(|c| c.is_ascii_graphic() || !reserved.contains(&c));
+                        .all(|c| c.is_ascii_graphic() && !reserved.contains(&c));
                     client && version
                 }
             } else {
-                true
+                // A client name on its own. Same character set as above: the user
+                // agent is stored and shown as text, it can't contain control
+                // characters such as NUL.
+                !segment.is_empty() && segment.chars().all(|c| c.is_ascii_graphic())
             }
         }) {
             Ok(Self(input.to_owned()))
